@@ -70,8 +70,28 @@ type FuncResult struct {
 	AssumePCs []*Term
 }
 
+// verifyFunctionCases: one result per truth assignment of the contract's
+// `case` conditions (a single result when there are none).
+func (e *Engine) verifyFunctionCases(c *Contract, init *State) []*FuncResult {
+	n := len(c.Cases)
+	if n == 0 {
+		return []*FuncResult{e.verifyFunction(c, init, -1)}
+	}
+	if n > 8 {
+		n = 8
+	}
+	var out []*FuncResult
+	for bits := 0; bits < 1<<n; bits++ {
+		out = append(out, e.verifyFunction(c, init, bits))
+		caseTruth = nil
+	}
+	return out
+}
+
 // verifyFunction generates the obligations of one function under contract.
-func (e *Engine) verifyFunction(c *Contract, init *State) (res *FuncResult) {
+func (e *Engine) verifyFunction(c *Contract, init *State, caseBits int) (res *FuncResult) {
+	caseTruth = nil
+	e.caseSuffix = ""
 	fn := e.funcsByName[c.Key]
 	res = &FuncResult{Fn: shortFn(fn), Contract: c}
 	// per-function reset
@@ -87,6 +107,7 @@ func (e *Engine) verifyFunction(c *Contract, init *State) (res *FuncResult) {
 	e.usedModels = map[string]bool{}
 	e.bitDefs = nil
 	e.pureSeen = map[int]bool{}
+	e.pureConst = map[int]*Term{}
 	e.byteRefs = map[int]bool{}
 	e.lists = map[int][]*Term{}
 	e.pairs = map[int][2]*Term{}
@@ -143,6 +164,18 @@ func (e *Engine) verifyFunction(c *Contract, init *State) (res *FuncResult) {
 	for _, fv := range fn.FreeVars {
 		bindings = append(bindings, e.inputValue(st, fv.Type(), "fv:"+fv.Name()))
 	}
+	// type invariant of archive writers received as inputs: open, between two
+	// entries, no sticky error, writing to some caller-supplied writer
+	for i, p := range fn.Params {
+		if typeKey(p.Type()) == "*archive/tar.Writer" {
+			e.inputTarWriter(st, args[i], "p:"+p.Name())
+		}
+	}
+	for i, fv := range fn.FreeVars {
+		if typeKey(fv.Type()) == "*archive/tar.Writer" {
+			e.inputTarWriter(st, bindings[i], "fv:"+fv.Name())
+		}
+	}
 	entry := st.clone()
 	e.inputs = nil
 	for i, p := range fn.Params {
@@ -176,6 +209,33 @@ func (e *Engine) verifyFunction(c *Contract, init *State) (res *FuncResult) {
 		g := e.evalClause(nil, cl, cargs, nil, st, entry, True)
 		e.assume(True, g)
 	}
+	if caseBits >= 0 {
+		truth := map[int]bool{}
+		var lits []*Term
+		for i, cl := range c.Cases {
+			if i >= 8 {
+				break
+			}
+			a := e.evalClause(nil, cl, cargs, nil, st, entry, True)
+			v := caseBits&(1<<i) != 0
+			if v {
+				lits = append(lits, a)
+				e.caseSuffix += "T"
+			} else {
+				lits = append(lits, Not(a))
+				e.caseSuffix += "F"
+			}
+			for a.Op == "not" {
+				a, v = a.Args[0], !v
+			}
+			truth[a.id] = v
+		}
+		for _, l := range lits {
+			e.assume(True, l)
+		}
+		e.caseSuffix = " {case " + e.caseSuffix + "}"
+		caseTruth = truth
+	}
 	r, out, pcOut := e.execFunction(fn, args, bindings, st, True, nil, "", nil, false)
 	if len(c.captures) > 0 {
 		args = append(append([]*Term{}, args...), e.captureVals(c, fn, bindings, out)...)
@@ -199,6 +259,7 @@ func (e *Engine) verifyFunction(c *Contract, init *State) (res *FuncResult) {
 		}
 		for _, cl := range c.Ensures {
 			g := e.evalClause(nil, cl, cargsR, resR, stR, entry, pcR)
+			g = RestrictGoal(g, pcR)
 			n0 := len(e.obls)
 			e.addObl(nil, "ensures", cl.Label+suffix, cl.Props, pcR, g, fmt.Sprintf("%s:%d", strings.TrimPrefix(c.File, "/repo/"), cl.Line))
 			for _, o := range e.obls[n0:] {
@@ -248,12 +309,31 @@ func (e *Engine) verifyFunction(c *Contract, init *State) (res *FuncResult) {
 }
 
 func (e *Engine) addCover(kind, label string, pc *Term) {
-	id := fmt.Sprintf("%s/%s:%s", shortFn(e.topFn), kind, label)
+	id := fmt.Sprintf("%s/%s:%s", shortFn(e.topFn), kind, label) + e.caseSuffix
 	var props []string
 	if e.topContract != nil {
 		props = e.topContract.allProps()
 	}
 	e.obls = append(e.obls, &Obligation{ID: id, Kind: kind, Props: props, PC: pc, Goal: False, NAssum: len(e.assumes), Fn: shortFn(e.topFn), Cover: true})
+}
+
+func (e *Engine) addCoverIn(fr *Frame, label string, pc *Term) {
+	id := fmt.Sprintf("%s/cover:%s", shortFn(e.topFn), label)
+	if fr != nil && fr.path+fr.iter != "" {
+		id += " @" + fr.path + fr.iter
+	}
+	id += e.caseSuffix
+	if n := e.oblIDs[id]; n > 0 {
+		e.oblIDs[id] = n + 1
+		id = fmt.Sprintf("%s ~%d", id, n)
+	} else {
+		e.oblIDs[id] = 1
+	}
+	var props []string
+	if e.topContract != nil {
+		props = e.allPropsDeep(e.topContract)
+	}
+	e.obls = append(e.obls, &Obligation{ID: id, Kind: "cover", Props: props, PC: pc, Goal: False, NAssum: len(e.assumes), Fn: shortFn(e.topFn), Cover: true})
 }
 
 func (c *Contract) allProps() []string {
@@ -322,3 +402,20 @@ func (e *Engine) inputObjFactsIf(g *Term, t types.Type, v *Term) {
 }
 
 var _ = ssa.NaiveForm
+
+func (e *Engine) inputTarWriter(st *State, l *Term, name string) {
+	under := Sym(name+".under", IfaceS)
+	e.axiom(Eq(IfaceTag(under), IntT(-1)))
+	pad := Sym(name+".pad", IntS)
+	e.axiom(And(Le(IntT(0), pad), Lt(pad, IntT(512))))
+	e.ghostSet(st, "under", IfaceS, l, under)
+	e.ghostSet(st, "werr", IfaceS, l, NilIface)
+	e.ghostSet(st, "tarPad", IntS, l, pad)
+	e.ghostSet(st, "tarRemaining", IntS, l, IntT(0))
+	e.ghostSet(st, "tarClosed", BoolS, l, False)
+	e.ghostSet(st, "entries", IntS, l, Sym(name+".entries", IntS))
+	e.ghostSet(st, "tarBytes", IntS, l, Sym(name+".bytes", IntS))
+	e.ghostSet(st, "tarStream", StringS, l, Sym(name+".stream", StringS))
+	e.ghostSet(st, "tarManifest", StringS, l, Sym(name+".manifest", StringS))
+	e.note("input *tar.Writer assumed open, between entries and without a sticky error")
+}
